@@ -153,6 +153,7 @@ tag_of(const uint8_t* p, size_t n)
     }
     return h & 0x3fffffff;
 }
+#define CLIP(x, m) ((uint64_t)(x) > (uint64_t)(m) ? (uint64_t)(m) : (uint64_t)(x))
 static const char*
 tyname(enum SampleType t)
 {
@@ -382,8 +383,10 @@ describe_packet(char* dst, size_t cap, const uint8_t* p, const uint8_t* e, int s
                 }
         }
         n += snprintf(dst + n, cap - n, "%s{\"id\":%ld,\"hw\":%ld,\"w\":%u,\"h\":%u,\"ty\":\"%s\",\"nb\":%ld,\"al\":%d,\"tag\":%u,\"ok\":%s}", k ? "," : "",
-                      (long)v->frame_id, (long)v->hardware_frame_id, v->shape.dims.width, v->shape.dims.height, tyname(v->shape.type),
-                      (long)v->bytes_of_frame, (int)(((uintptr_t)p) % 8), tag_of(v->data, nimg), ok ? "true" : "false");
+                      // (values from the header as found, clipped to what TLC's 32-bit integers can multiply: garbage stays garbage)
+                      (long)CLIP(v->frame_id, 1000000000), (long)CLIP(v->hardware_frame_id, 1000000000), (unsigned)CLIP(v->shape.dims.width, 20000),
+                      (unsigned)CLIP(v->shape.dims.height, 20000), tyname(v->shape.type), (long)CLIP(v->bytes_of_frame, 2000000000),
+                      (int)(((uintptr_t)p) % 8), tag_of(v->data, nimg), ok ? "true" : "false");
         k++;
         p += v->bytes_of_frame;
     }
